@@ -52,7 +52,10 @@ Fixpoint remove_upto (x : N) (l : ranges) : ranges :=
   | (a, b) :: t => if b <=? x then remove_upto x t else if a <=? x then (x + 1, b) :: t else l
   end.
 
-Definition max_value (l : ranges) : option N := match rev l with [] => None | (_, b) :: _ => Some b end.
+(* IntervalSet::max_value: the largest element of the set (the end of the last interval of the ascending
+   list; written as a maximum over the intervals, which is the same value on an ascending list) *)
+Definition largest_hi (l : list (N * N)) : N := fold_right (fun r m => N.max (snd r) m) 0 l.
+Definition max_value (l : ranges) : option N := match l with [] => None | _ => Some (largest_hi l) end.
 Definition min_value (l : ranges) : option N := match l with [] => None | (a, _) :: _ => Some a end.
 Definition spread (l : ranges) : N :=
   match min_value l, max_value l with Some mn, Some mx => mx - mn | _, _ => 0 end.
@@ -312,26 +315,27 @@ Definition run (c : list Z) : list Z :=
 
 (* ---------------- the property as a judgement on an implementation's output ---------------- *)
 (* Reference bookkeeping recomputed from the operations and the emitted frames only:
-   procd   = packet numbers processed so far (no duplicates)
-   pend    = ack-eliciting packets (pn, arrival) still owed an acknowledgement
-   frames  = (packet the frame was sent in, largest acknowledged of the frame) of emitted ACK frames
+   procd   = packet numbers processed so far;  nproc = how many packets were processed
+   pend    = ack-eliciting packets (pn, arrival) that are owed an acknowledgement
+   cov     = ack-eliciting packets whose acknowledgement is in flight: covered by an emitted ACK frame
+   frames  = the emitted ACK frames, newest first
    lacked  = largest "largest acknowledged" of a frame whose carrying packet the peer acknowledged
              (RFC 9000 13.2.4: the receiver may stop acknowledging packets at or below it); -1 = none
-   evicted = at some moment the processed numbers formed more intervals than ack_ranges_limit, so the
-             receiver may have shed its lowest ranges (RFC 9000 13.2.3); from then on an emitted ACK frame is
-             only required to exist, not to contain every owed packet *)
-Record ref := { procd : list N; pend : list (N * N); frames : list (N * N); lacked : Z; evicted : bool }.
+   Exemption for bounded state (RFC 9000 13.2.3): once ack_ranges_limit packets have been processed the
+   receiver may have shed its lowest ranges; a frame emitted from then on (j_all) counts as covering
+   every packet that arrived before it.
+   A covered packet is owed again when every frame covering it travelled in an ack-eliciting packet
+   that was declared lost (packets carrying nothing ack-eliciting are never reported to the manager). *)
+Record jframe := { j_pkt : N; j_elic : bool; j_rl : list (N * N); j_all : bool; j_time : N; j_lost : bool }.
+Record ref := { procd : list N; nproc : N; pend : list (N * N); cov : list (N * N);
+                frames : list jframe; lacked : Z }.
 
-Definition ref0 : ref := {| procd := []; pend := []; frames := []; lacked := (-1)%Z; evicted := false |}.
+Definition ref0 : ref := {| procd := []; nproc := 0; pend := []; cov := []; frames := []; lacked := (-1)%Z |}.
 
-(* number of maximal runs of consecutive numbers in a duplicate-free list *)
-Definition intervals (l : list N) : N := N.of_nat (length (filter (fun p => negb (mem_N (p + 1) l)) l)).
-
-Definition count_in (lo hi : N) (l : list N) : N :=
-  N.of_nat (length (filter (fun p => (lo <=? p) && (p <=? hi)) l)).
-
-(* every number of the range was processed: the range holds hi - lo + 1 numbers, all distinct in procd *)
-Definition range_processed (lo hi : N) (l : list N) : bool := (lo <=? hi) && (count_in lo hi l =? hi - lo + 1).
+(* every number of lo..=hi was processed (a range longer than the history is rejected at once) *)
+Definition range_processed (lo hi : N) (l : list N) : bool :=
+  (lo <=? hi) && (hi - lo <? N.of_nat (length l))
+  && forallb (fun k => mem_N (lo + N.of_nat k) l) (seq 0 (N.to_nat (hi - lo) + 1)).
 
 Fixpoint take_ranges (n : nat) (out : list Z) : option (list (N * N) * list Z) :=
   match n with
@@ -345,17 +349,14 @@ Fixpoint take_ranges (n : nat) (out : list Z) : option (list (N * N) * list Z) :
            end
   end.
 
-Definition lowest_lo (l : list (N * N)) : N :=
-  fold_right (fun r m => N.min (fst r) m) 4611686018427387904 l.
-Definition largest_hi (l : list (N * N)) : N := fold_right (fun r m => N.max (snd r) m) 0 l.
-Definition in_frame (p : N) (l : list (N * N)) : bool := existsb (fun r => (fst r <=? p) && (p <=? snd r)) l.
+Definition in_frame (p : N) (l : list (N * N)) : bool := in_ranges p l.
 
 (* largest processed number above lacked *)
 Definition max_tracked (rf : ref) : option N :=
   max_list (filter (fun p => (lacked rf <? Nz p)%Z) (procd rf)).
 
 Definition min_arrival (l : list (N * N)) : option N :=
-  match l with [] => None | _ => Some (fold_right (fun r m => N.min (snd r) m) (snd (hd (0, 0) l)) l) end.
+  match l with [] => None | h :: t => Some (fold_right (fun r m => N.min (snd r) m) (snd h) t) end.
 
 (* ack_deadline: while an ack-eliciting packet is owed an acknowledgement, the manager demands a
    transmission or its delay timer is armed no later than the oldest arrival + max_ack_delay *)
@@ -365,75 +366,110 @@ Definition deadline_ok (mad : N) (rf : ref) (tm act : Z) : bool :=
   | Some t0 => (act =? 1)%Z || ((0 <=? tm) && (tm <=? Nz (t0 + mad)))%Z
   end.
 
+Definition covers (f : jframe) (pa : N * N) : bool :=
+  negb (j_lost f) && (in_frame (fst pa) (j_rl f) || (j_all f && (snd pa <=? j_time f))).
+
+Definition op_time (now : N) (o : op) : N :=
+  match o with OProc dt _ _ | OTx dt _ _ | OTimeout dt => now + dt | _ => now end.
+
+(* what the operation, with the frame it produced (PING flag, ranges as listed), does to the reference *)
+Definition ref_step (limit now' : N) (rf : ref) (o : op) (fo : option (bool * list (N * N))) : ref :=
+  match o with
+  | OProc _ pn fl =>
+      let owed := N.testbit fl 0 && (lacked rf <? Nz pn)%Z in
+      {| procd := pn :: procd rf; nproc := nproc rf + 1;
+         pend := if owed then (pn, now') :: pend rf else pend rf;
+         cov := cov rf; frames := frames rf; lacked := lacked rf |}
+  | OTx _ ctl pkt =>
+      match fo with
+      | None => rf
+      | Some (ping, rl) =>
+          let all := limit <=? nproc rf in
+          let keep := fun pa : N * N => negb all && negb (in_frame (fst pa) rl) in
+          {| procd := procd rf; nproc := nproc rf;
+             pend := filter keep (pend rf);
+             cov := filter (fun pa => negb (keep pa)) (pend rf) ++ cov rf;
+             frames := {| j_pkt := pkt; j_elic := N.testbit ctl 4 || ping; j_rl := rl; j_all := all;
+                          j_time := now'; j_lost := false |} :: frames rf;
+             lacked := lacked rf |}
+      end
+  | OAck a b =>
+      let lo := N.min a b in let hi := N.max a b in
+      let la := fold_right (fun f m => if (lo <=? j_pkt f) && (j_pkt f <=? hi)
+                                       then Z.max (Nz (largest_hi (j_rl f))) m else m)
+                           (lacked rf) (frames rf) in
+      {| procd := procd rf; nproc := nproc rf;
+         pend := filter (fun pa => (la <? Nz (fst pa))%Z) (pend rf);
+         cov := filter (fun pa => (la <? Nz (fst pa))%Z) (cov rf);
+         frames := frames rf; lacked := la |}
+  | OLoss a b =>
+      let lo := N.min a b in let hi := N.max a b in
+      let frames' := map (fun f => if j_elic f && (lo <=? j_pkt f) && (j_pkt f <=? hi)
+                                   then {| j_pkt := j_pkt f; j_elic := j_elic f; j_rl := j_rl f; j_all := j_all f;
+                                           j_time := j_time f; j_lost := true |}
+                                   else f) (frames rf) in
+      let covered := fun pa => existsb (fun f => covers f pa) frames' in
+      {| procd := procd rf; nproc := nproc rf;
+         pend := filter (fun pa => negb (covered pa)) (cov rf) ++ pend rf;
+         cov := filter covered (cov rf);
+         frames := frames'; lacked := lacked rf |}
+  | OTimeout _ => rf
+  end.
+
+(* the three statements, evaluated after one operation: rf before, rf' after, status (tm, act) *)
+Definition check (mad : N) (rf rf' : ref) (o : op) (fo : option (bool * list (N * N))) (tm act : Z) : bool :=
+  (match o with
+   | OProc _ pn fl =>
+       (* immediate_on_reorder: not the successor of the largest number still tracked, or CE marked *)
+       let ooo := match max_tracked rf with Some m => negb (pn =? m + 1) | None => false end in
+       let ce := N.land (N.shiftr fl 1) 3 =? 3 in
+       if N.testbit fl 0 && (ooo || ce) then (act =? 1)%Z else true
+   | OTx _ _ _ =>
+       (* acks_subset_processed *)
+       match fo with
+       | Some (_, rl) => forallb (fun r => range_processed (fst r) (snd r) (procd rf)) rl
+       | None => true
+       end
+   | _ => true
+   end)
+  && deadline_ok mad rf' tm act.
+
+Definition parse_out (o : op) (out : list Z)
+  : option (option (bool * list (N * N)) * Z * Z * list Z) :=
+  match o with
+  | OTx _ _ _ =>
+      match out with
+      | w :: out1 =>
+          if (w =? 0)%Z then
+            match out1 with tm :: act :: _ :: r => Some (None, tm, act, r) | _ => None end
+          else
+            match out1 with
+            | ping :: _ :: _ :: _ :: _ :: k :: r0 =>
+                if (k <=? 0)%Z then None else
+                match take_ranges (Z.to_nat k) r0 with
+                | Some (rl, tm :: act :: _ :: r) => Some (Some ((ping =? 1)%Z, rl), tm, act, r)
+                | _ => None
+                end
+            | _ => None
+            end
+      | [] => None
+      end
+  | _ => match out with tm :: act :: _ :: r => Some (None, tm, act, r) | _ => None end
+  end.
+
 Fixpoint judge_from (mad limit now : N) (rf : ref) (ops : list op) (out : list Z) : bool :=
   match ops with
   | [] => match out with [] => true | _ => false end
   | o :: t =>
-      match o with
-      | OProc dt pn fl =>
-          match out with
-          | tm :: act :: _ :: r =>
-              let now' := now + dt in
-              let eliciting := N.testbit fl 0 in
-              let ce := N.land (N.shiftr fl 1) 3 =? 3 in
-              (* out of order: not the successor of the largest number still tracked *)
-              let ooo := match max_tracked rf with Some m => negb (pn =? m + 1) | None => false end in
-              let owed := eliciting && (lacked rf <? Nz pn)%Z in
-              let procd' := if mem_N pn (procd rf) then procd rf else pn :: procd rf in
-              let rf' := {| procd := procd';
-                            pend := if owed then (pn, now') :: pend rf else pend rf;
-                            frames := frames rf; lacked := lacked rf;
-                            evicted := evicted rf || (limit <? intervals procd') |} in
-              (* immediate_on_reorder *)
-              (if eliciting && (ooo || ce) then (act =? 1)%Z else true)
-              && deadline_ok mad rf' tm act
-              && judge_from mad limit now' rf' t r
-          | _ => false
-          end
-      | OTx dt _ pkt =>
-          let now' := now + dt in
-          match out with
-          | 0%Z :: tm :: act :: _ :: r => deadline_ok mad rf tm act && judge_from mad limit now' rf t r
-          | 1%Z :: _ :: _ :: _ :: _ :: _ :: k :: r0 =>
-              if (k <=? 0)%Z then false else
-              match take_ranges (Z.to_nat k) r0 with
-              | Some (rl, tm :: act :: _ :: r) =>
-                  let rf' := {| procd := procd rf;
-                                pend := if evicted rf then []
-                                        else filter (fun pa => negb (in_frame (fst pa) rl)) (pend rf);
-                                frames := (pkt, largest_hi rl) :: frames rf; lacked := lacked rf;
-                                evicted := evicted rf |} in
-                  (* acks_subset_processed *)
-                  forallb (fun r => range_processed (fst r) (snd r) (procd rf)) rl
-                  && deadline_ok mad rf' tm act
-                  && judge_from mad limit now' rf' t r
-              | _ => false
-              end
-          | _ => false
-          end
-      | OAck a b =>
-          match out with
-          | tm :: act :: _ :: r =>
-              let lo := N.min a b in let hi := N.max a b in
-              let la := fold_right (fun f m => if (lo <=? fst f) && (fst f <=? hi) then Z.max (Nz (snd f)) m else m)
-                                   (lacked rf) (frames rf) in
-              let rf' := {| procd := procd rf; pend := filter (fun pa => (la <? Nz (fst pa))%Z) (pend rf);
-                            frames := frames rf; lacked := la; evicted := evicted rf |} in
-              deadline_ok mad rf' tm act && judge_from mad limit now rf' t r
-          | _ => false
-          end
-      | OLoss _ _ =>
-          match out with
-          | tm :: act :: _ :: r => deadline_ok mad rf tm act && judge_from mad limit now rf t r
-          | _ => false
-          end
-      | OTimeout dt =>
-          match out with
-          | tm :: act :: _ :: r => deadline_ok mad rf tm act && judge_from mad limit (now + dt) rf t r
-          | _ => false
-          end
+      match parse_out o out with
+      | None => false
+      | Some (fo, tm, act, r) =>
+          let now' := op_time now o in
+          let rf' := ref_step limit now' rf o fo in
+          check mad rf rf' o fo tm act && judge_from mad limit now' rf' t r
       end
   end.
 
 Definition judge (c out : list Z) : bool :=
-  let '(cfg0, r) := header c in judge_from (max_ack_delay cfg0) (ranges_limit cfg0) 1 ref0 (parse (length r) r) out.
+  let '(cfg0, r) := header c in
+  judge_from (max_ack_delay cfg0) (ranges_limit cfg0) 1 ref0 (parse (length r) r) out.
